@@ -46,7 +46,7 @@ fn run(input: RunInput) -> ScenFuture {
         let mut nodes = Vec::new();
         let mut subs = Vec::new();
         for (i, (p, alt)) in names.iter().enumerate() {
-            let mut spec = w.spec(i as u8 + 1, cfg.clone());
+            let mut spec = w.spec_exact(i as u8 + 1, cfg.clone());
             spec.name = p.clone();
             spec.alt_name = alt.clone();
             let n = w.start_node(spec, Svc::echo(&w)).unwrap();
